@@ -123,6 +123,11 @@ M = [
  ("step_position_from_start_velocity", "pyins/_numba_integrate.py", "        V1 = 0.5 * (V1 + velocity_n[j + 1, 0])\n        V2 = 0.5 * (V2 + velocity_n[j + 1, 1])\n        V3 = 0.5 * (V3 + velocity_n[j + 1, 2])\n", "", ["C01"], "quiet-or-drift"),   # Euler instead of trapezoid: first order, but converges - C01 does not state an order
  ("step_sculling_half_dropped", "pyins/_numba_integrate.py", "                                           - 0.5 * (chi2 * dv3 - chi3 * dv2)\n", "", ["C01"], "quiet-or-drift"),
  ("step_gravity_height_factor", "pyins/_numba_integrate.py", "(1 - 2 * alt / earth.A))", "(1 - alt / earth.A))", ["C01"], "violation"),   # the kernel's own copy of gravity disagrees with the Earth model above sea level
+ # ---- fifth round: the increment the feedback filter hands to predict at a measurement epoch (dataflow clause pred_ok)
+ ("fb_predict_uncorrected", "pyins/filters.py", "                integrator.predict((measurement_time - time) / increment['dt'] *\n                                   increment),",
+  "                integrator.predict((measurement_time - time) / increment['dt'] *\n                                   increments.iloc[increments_index]),", ["C12"], "violation"),
+ ("fb_predict_half_fraction", "pyins/filters.py", "                integrator.predict((measurement_time - time) / increment['dt'] *\n                                   increment),",
+  "                integrator.predict(0.5 * (measurement_time - time) / increment['dt'] *\n                                   increment),", ["C12"], "violation"),
 ]
 
 
